@@ -25,6 +25,19 @@ class C10(SessionCheck):
         evs, outs = session.expand_run(case["events"], obs)
         return super().model_requests(dict(case, events=evs), outs)
 
+    def make_case(self, rng):
+        case, stats = super().make_case(rng)
+        evs = case["events"]
+        k = 0
+        while k < len(evs) and evs[k][0] == 3:
+            k += 1
+        if "env" not in case and rng.random() < 0.15 and all(case["spec"]) and not any(
+                ev[0] in (3, 6) and ev[1] == 6 for ev in evs):
+            # counted library feature observers (with a composite) watch the session from outside the model world
+            evs.insert(k, [13])
+            stats["counted_library_observers"] = 1
+        return case, stats
+
     def extra_requests(self, case, obs):
         # spec values of the queries a recording observer makes inside update(): on the post-dispatch rows
         items = []
@@ -41,7 +54,15 @@ class C10(SessionCheck):
         # equivalent to: the dispatch, then the unsubscription)
         evs, obs = session.expand_run(case["events"], obs)
         case = dict(case, events=evs)
-        fails = self.tie_failures(case, obs, model_out)
+        counted = [o[7] for ev, o in zip(evs, obs) if ev[0] == 7 and len(o) > 7 and o[7]]
+        early = []
+        if counted:
+            name, which, n = counted[-1][0]
+            early.append(Failure("oracle", "library-observer-notified-once",
+                                 f"a library feature observer ({name}) subscribed to the dispatcher had its {which}() "
+                                 f"called {n} times for one accepted {'dispatch' if which == 'update' else 'reset'}",
+                                 observed=counted[-1]))
+        fails = self.tie_failures(case, obs, model_out) + early
         subs = []          # tracked from the implementation's own answers
         kinds = []
         loglen = {}        # idx -> number of log entries seen at the last snapshot
